@@ -30,6 +30,7 @@ type written struct {
 	u      string
 	rule   string
 	list   string
+	code   string
 	hasIP  bool
 	name   string
 	ok     bool
@@ -87,14 +88,29 @@ func run(s *kernel.Sim, _, cfg string) {
 				e.RemoteIP = netip.AddrFrom4([4]byte{10, 0, byte(seq >> 8), byte(seq)})
 				w.hasIP = true
 			}
-			switch t.Choose(4, "result") {
+			w.code = "1"
+			switch t.Choose(6, "result") {
+			case 3:
+				// Both stages matched: the verdict on the request comes first
+				// and is the one that was applied.
+				w.list, w.rule = "list_allow", "@@||"+strings.TrimSuffix(host, ".")+"^"
+				w.code = "4"
+				e.RequestResult = &filter.ResultAllowed{List: filter.ID(w.list), Rule: filter.RuleText(w.rule)}
+				e.ResponseResult = &filter.ResultBlocked{List: "list_resp", Rule: "||cname-of-" + filter.RuleText(strings.TrimSuffix(host, ".")) + "^"}
+			case 4:
+				w.list, w.rule = "list_block", "||"+strings.TrimSuffix(host, ".")+"^"
+				w.code = "2"
+				e.RequestResult = &filter.ResultBlocked{List: filter.ID(w.list), Rule: filter.RuleText(w.rule)}
+				e.ResponseResult = &filter.ResultAllowed{List: "list_resp", Rule: "@@||cname-of-" + filter.RuleText(strings.TrimSuffix(host, ".")) + "^"}
 			case 1:
 				w.list, w.rule = "list_a", "||"+strings.TrimSuffix(host, ".")+"^"
 				if long {
 					w.rule += "$dnstype=A|AAAA," + strings.Repeat("x", 3000)
 				}
 				e.RequestResult = &filter.ResultBlocked{List: filter.ID(w.list), Rule: filter.RuleText(w.rule)}
+				w.code = "2"
 			case 2:
+				w.code = "5"
 				w.list, w.rule = "list_b", "@@||"+strings.TrimSuffix(host, ".")+"^"
 				e.ResponseResult = &filter.ResultAllowed{List: filter.ID(w.list), Rule: filter.RuleText(w.rule)}
 			}
@@ -189,7 +205,7 @@ func run(s *kernel.Sim, _, cfg string) {
 		want := map[string]string{
 			"b": string(w.e.ProfileID), "i": string(w.e.DeviceID), "n": w.e.DomainFQDN,
 			"q": fmt.Sprint(w.e.RequestType), "r": fmt.Sprint(w.e.ResponseCode), "p": fmt.Sprint(uint8(w.e.Protocol)),
-			"l": w.list, "m": w.rule, "t": fmt.Sprint(w.e.Time.UnixMilli()), "c": "DE",
+			"l": w.list, "m": w.rule, "f": w.code, "t": fmt.Sprint(w.e.Time.UnixMilli()), "c": "DE",
 			"e": fmt.Sprint(w.e.Elapsed.Milliseconds()),
 		}
 		for k, v := range want {
